@@ -325,7 +325,32 @@ func (e *childEnv) exec(c Case) Result {
 		res.Diff = diffRuns(img, after)
 	}
 	res.After, res.Masks, res.Items, res.TableMsg = tableDump(fsc)
+	// The descriptor table is HOST state: nothing in it may be backed by guest memory.  Overwrite the whole guest
+	// memory and read the table's strings again.
+	if res.TableMsg == "" {
+		before := tableNames(fsc)
+		fill := bytes.Repeat([]byte{0xEE}, int(mem.Size()))
+		mem.Write(0, fill)
+		if now := tableNames(fsc); now != before {
+			res.TableMsg = fmt.Sprintf("descriptor table entries changed when the guest memory was overwritten after the call (an entry is backed by guest memory): %q -> %q", before, now)
+		}
+	}
 	return res
+}
+
+// tableNames: fd=name of every table entry, copied out of whatever memory backs the strings.
+func tableNames(fsc any) string {
+	v := reflect.ValueOf(fsc).Elem().FieldByName("openedFiles")
+	items := v.FieldByName("items")
+	var sb strings.Builder
+	for i := 0; i < items.Len(); i++ {
+		it := items.Index(i)
+		if it.IsNil() {
+			continue
+		}
+		fmt.Fprintf(&sb, "%d=%s;", i, strings.Clone(it.Elem().FieldByName("Name").String()))
+	}
+	return sb.String()
 }
 
 func diffRuns(a, b []byte) []Run {
